@@ -249,15 +249,22 @@ theorem weightOf_of_mem (weights : List (Nat × Rat)) (e : Nat × Rat)
   unfold weightOf
   rw [find_of_mem_nodup weights e hnd he]
 
+/-- the lifted zero-weight mask of `_pmf_predict` (`EgPredict.egColumn`) in closed form -/
+theorem maskedPred_def (preds : List Rat) (weights : List (Nat × Rat)) (t : Nat) :
+    maskedPred preds weights t = if weightOf weights t = 0 then 0 else preds.getD t 0 := by
+  unfold maskedPred EgPredict.egColumn
+  rfl
+
 /-- with distinct predictor ids the masked mixture is the plain id-aligned mixture -/
 theorem egPositive_eq_sum (preds : List Rat) (weights : List (Nat × Rat))
     (hnd : (weights.map (·.1)).Nodup) :
     egPositive preds weights = (weights.map (fun e => preds.getD e.1 0 * e.2)).sum := by
   unfold egPositive
+  rw [if_pos (by rfl : EgPredict.dotById = true)]
   congr 1
   apply List.map_congr_left
   intro e he
-  unfold maskedPred
+  unfold maskedPred EgPredict.egColumn
   rw [weightOf_of_mem weights e hnd he]
   by_cases h : e.2 = 0 <;> simp [h]
 
